@@ -51,6 +51,12 @@ pub fn gen_program(r: &mut Rng, with_double_claim: bool) -> Program {
 
 /// `channels_only`: programs made of channel steps (C05, client level).
 pub fn gen_program_kind(r: &mut Rng, with_double_claim: bool, channels_only: bool) -> Program {
+    gen_program_focus(r, with_double_claim, if channels_only { 1 } else { 0 })
+}
+
+/// focus: 0 = everything, 1 = channel steps only, 2 = event/call steps only (C04, client level).
+pub fn gen_program_focus(r: &mut Rng, with_double_claim: bool, focus: u8) -> Program {
+    let channels_only = focus == 1;
     let nclients = r.range(2, 4);
     let mut clients = Vec::new();
     for _ in 0..nclients {
@@ -75,7 +81,11 @@ pub fn gen_program_kind(r: &mut Rng, with_double_claim: bool, channels_only: boo
             for _ in 0..n {
                 let cancel = if r.chance(1, 5) { Some(1 + r.below(6) as u32) } else { None };
                 let server = r.below(nservers);
-                let pick = if channels_only { 14 + r.below(3) } else { r.below(if with_double_claim { 24 } else { 23 }) };
+                let pick = match focus {
+                    1 => 14 + r.below(3),
+                    2 => *r.pick(&[5usize, 10, 10, 11, 11, 12, 12, 13, 1]),
+                    _ => r.below(if with_double_claim { 24 } else { 23 }),
+                };
                 let s = match pick {
                     0 => Step::SyncClient,
                     1 => Step::SyncBroker,
